@@ -31,7 +31,7 @@ var skeletonFuncs = []string{
 	"state.addConnHandler", "state.processFile", "path.alive", "Mux.loadState", "Mux.storeState",
 	"gzipReader.Read", "gzipWriter.Close", "CompressorGzip.Compress", "CompressorGzip.Decompress", "streamGRPC.compress", "streamGRPC.decompress",
 	"streamHTTP.SendHeader", "streamGRPC.SendHeader", "muxOptions.unary", "muxOptions.stream", "inPayload", "outPayload",
-	"isStreamError",
+	"isStreamError", "HTTPHandlerOption", "MuxHandleOption", "NewServer", "Mux.ServeHTTP",
 }
 
 func leanIdent(fn string) string {
@@ -143,6 +143,7 @@ var stmtFuncs = []string{
 	"streamGRPC.RecvMsg", "streamGRPC.SendMsg", "streamHTTP.readMsg", "streamHTTP.decodeRequestArgs", "streamHTTP.SendMsg", "createConnHandler",
 	"Mux.serveHTTP", "Mux.serveGRPC", "streamHTTP.RecvMsg", "streamHTTP.SendHeader", "streamGRPC.SendHeader", "streamWS.RecvMsg", "streamWS.SendMsg",
 	"muxOptions.unary", "muxOptions.stream", "inPayload", "outPayload", "isStreamError",
+	"HTTPHandlerOption", "MuxHandleOption", "NewServer", "Mux.ServeHTTP",
 }
 
 // writerOrder: the order of lock / load / modify / store / unlock in a writer function
@@ -208,7 +209,14 @@ func genConds(g *genCtx, lean string, facts map[string]interface{}) error {
 	var sb strings.Builder
 	sb.WriteString(genHeader)
 	sb.WriteString("namespace Larking.Gen.Skel\n\n")
-	names := append([]string(nil), skeletonFuncs...)
+	var names []string
+	seenName := map[string]bool{}
+	for _, n := range skeletonFuncs {
+		if !seenName[n] {
+			seenName[n] = true
+			names = append(names, n)
+		}
+	}
 	sort.Strings(names)
 	all := map[string]interface{}{}
 	for _, fn := range names {
@@ -223,7 +231,12 @@ func genConds(g *genCtx, lean string, facts map[string]interface{}) error {
 		fmt.Fprintf(&sb, "/-- control skeleton of `%s`. -/\ndef conds_%s : List String := %s\n\n", fn, leanIdent(fn), leanStrListML(conds))
 		fmt.Fprintf(&sb, "/-- index / slice / type-assertion / panic sites of `%s`. -/\ndef sites_%s : List String := %s\n\n", fn, leanIdent(fn), leanStrListML(sites))
 	}
+	seenStmt := map[string]bool{}
 	for _, fn := range stmtFuncs {
+		if seenStmt[fn] {
+			continue
+		}
+		seenStmt[fn] = true
 		var st []string
 		if fd := g.funcs[fn]; fd == nil {
 			st = []string{"<missing>"}
